@@ -159,6 +159,14 @@ func c12RunCase[T any](c *Ctx, r *Rng, tc c12Case[T], scale int) {
 		}
 		c.Emit(fmt.Sprintf("canon %s %s", tc.name, hexBytes(b1)), hexBytes(b3))
 
+		// exhaustive: every map entry (DTO field, at every level) set to null / removed; and the
+		// type's own UnmarshalCBOR called directly on null-like inputs
+		for _, m := range c12FieldMutants(b1) {
+			c12Mutant1(c, tc, v, m)
+		}
+		if vi == 0 {
+			c12Direct(c, tc)
+		}
 		for mi := 0; mi < nMut; mi++ {
 			kind := kinds[r.IntN(len(kinds))]
 			m := c12Mutate(r, b1, kind)
@@ -224,6 +232,43 @@ func c12Mutant1[T any](c *Ctx, tc c12Case[T], orig T, m *c12Mutant) {
 		return
 	}
 	c.Emit(lhs, "accept:"+hex.EncodeToString(b))
+}
+
+// c12Direct calls the decoder method itself (a public API) on null-like inputs.
+func c12Direct[T any](c *Ctx, tc c12Case[T]) {
+	var zero T
+	rt := reflect.TypeOf(zero)
+	if rt == nil || rt.Kind() != reflect.Pointer {
+		return
+	}
+	for _, in := range [][]byte{{0xf6}, {0xf7}, {0xa0}, {0x80}, {0x40}, {0x00}} {
+		u, ok := reflect.New(rt.Elem()).Interface().(interface{ UnmarshalCBOR([]byte) error })
+		if !ok {
+			return
+		}
+		res := safely(func() string {
+			if err := u.UnmarshalCBOR(in); err != nil {
+				return "reject"
+			}
+			return "accept"
+		})
+		c.Count("direct." + strings.SplitN(res, ":", 2)[0])
+		if strings.HasPrefix(res, "panic") {
+			c.Violation(fmt.Sprintf("%s: UnmarshalCBOR(%s) panicked: %s", tc.name, hexBytes(in), res))
+			res = "reject"
+		}
+		if res == "accept" {
+			var v T = any(u).(T)
+			if verr := c12Valid(tc, v); verr != "" {
+				c.Violation(fmt.Sprintf("%s: UnmarshalCBOR(%s) accepted an object its constructor refuses (%s)", tc.name, hexBytes(in), verr))
+			}
+			res = "accept:" + hex.EncodeToString(in)
+			// the re-encoding check of `mut` lines does not apply to a direct call; emit as generic
+			c.Emit("any "+hexBytes(in), "accept")
+			continue
+		}
+		c.Emit(fmt.Sprintf("mut %s direct %s", tc.name, hexBytes(in)), res)
+	}
 }
 
 func runC12(c *Ctx) {
